@@ -94,7 +94,10 @@ def opsC09 : List (String × Op) := [
         [("model.cds", ofNats cds), ("model.out", ofNats out), ("model.has", ofBool true)] ++
           verdicts "model." ds g cds out
       | none => [("model.has", ofBool false)]
-    pure (mout ++ [("shape", #[(g.nrow : Int), (g.ncol : Int)])] ++ verdicts "spec." ds g icds iout)),
+    let hyps : Out := [("hyp.geo", ofBool (ds.size == g.subn && decide (0 < g.cs))),
+      ("hyp.finewf", ofBool (chkFineWF ds)), ("hyp.fined8", ofBool (chkFineD8 ds g.subncol)),
+      ("hyp.eacross", ofBool (chkEaCross g ea ds.size)), ("hyp.upamono", ofBool (chkUpaMono ds upa))]
+    pure (mout ++ hyps ++ [("shape", #[(g.nrow : Int), (g.ncol : Int)])] ++ verdicts "spec." ds g icds iout)),
   -- the connection check
   ("up_error", fun a => do
     let ds ← a.nats "ds"
@@ -105,6 +108,30 @@ def opsC09 : List (String × Op) := [
     | some f => pure [("model.flags", ofNats f), ("model.fix", ofNatList (upscaleErrorFix f)),
                       ("spec.flags", spec), ("fuel", ofBool false)]
     | none => pure [("model.flags", #[]), ("model.fix", #[]), ("spec.flags", spec), ("fuel", ofBool true)]),
+  ("up_outlet_pix", fun a => do
+    let ds ← a.nats "ds"
+    let g ← geoOf a
+    let idxs ← a.nats "idxs"
+    let all := (← a.nat "all") != 0
+    let mut out : Out := []
+    let mut k := 0
+    for idx in idxs do
+      out := out ++ [(s!"pix{k}", ofNatList (outletPix ds idx g.ncol g.subncol g.cs all))]
+      k := k + 1
+    pure out),
+  ("up_new_outlet", fun a => do
+    let ds ← a.nats "ds"
+    let g ← geoOf a
+    let upa ← a.ints "upa"
+    let streams ← a.ints "streams"
+    let cds ← a.nats "cds"
+    let out ← a.nats "out"
+    let target := (a.optInt "target").map Int.toNat
+    match newOutlet ds upa (← a.nat "idx0") (← a.nat "subidx0") streams cds out g.ncol g.subncol g.cs
+        (← a.nat "min_num") (← a.nat "min_den") (← a.int "minupa") target with
+    | some (s, c, o, f) =>
+      pure [("streams", s), ("cds", ofNats c), ("out", ofNats o), ("found", ofBool f), ("fuel", ofBool false)]
+    | none => pure [("fuel", ofBool true)]),
   ("up_check", fun a => do
     let ds ← a.nats "ds"
     let out ← a.nats "out"
